@@ -145,7 +145,8 @@ def pkgo_d(lines):
           "// PT2 is restricted to d.", "// @packageonly", "type PT2 struct{ X int }", "", "type S struct{}", "",
           "// PF is restricted."] + ann + ["func PF(n int) int { return n }", "", "// PM is restricted."] + ann + \
          ["func (s S) PM(n int) int { return n }", "", "// Q and QF are not annotated.", "type Q struct{ X int }", "",
-          "func QF(n int) int { return n }", ""]
+          "func QF(n int) int { return n }", "", "// PS is open to the using packages of the scenarios; its method PSM has a list of its own.",
+          "// @packageonly u, v, m/u, m/vv", "type PS struct{}", "", "// PSM is restricted."] + ann + ["func (p PS) PSM(n int) int { return n }", ""]
     return "\n".join(ls) + "\n"
 
 
@@ -185,6 +186,8 @@ def build_pkgo(sc, sid):
             params = "s%d %sS" % (n, q) if r in ("methCall", "methValue") else ""
             if r in ("methCallPromoted", "methValuePromoted"):
                 params = "e%d Emb" % n
+            if r == "methCallPS":
+                params = "w%d %sPS" % (n, q)
             out.add("func fn%d(%s) {" % (n, params))
             post = []
             stmt = {
@@ -192,6 +195,7 @@ def build_pkgo(sc, sid):
                 "funcValue": "f%d := %sPF" % (n, q),
                 "methCall": "_ = s%d.PM(%d)" % (n, n),
                 "methCallVar": "_ = gs.PM(%d)" % n,
+                "methCallPS": "_ = w%d.PSM(%d)" % (n, n),
                 "methCallPromoted": "_ = e%d.PM(%d)" % (n, n),
                 "methValuePromoted": "f%d := e%d.PM" % (n, n),
                 "methValue": "f%d := s%d.PM" % (n, n),
